@@ -64,3 +64,7 @@ Fixpoint find_mismatch {A} (ok : A -> bool) (l : list A) (i : nat) : list nat :=
   | [] => []
   | x :: t => if ok x then find_mismatch ok t (S i) else i :: find_mismatch ok t (S i)
   end.
+
+Definition Nneqb (a b : nat) : bool := negb (Nat.eqb a b).
+Definition Ngtb (a b : nat) : bool := Nat.ltb b a.
+Definition Ngeb (a b : nat) : bool := Nat.leb b a.
